@@ -105,6 +105,42 @@ class FakeWriter:
         return None
 
 
+class StallDetectingReader:
+    """Proxy for the StreamReader handed to the client: when the client waits for more bytes than
+    the peer has sent or will send before the client's next write (nothing pending), the wait can
+    never be satisfied - equivalent to the peer closing the connection, so EOF is fed (deterministic;
+    no wall clock).  Read calls after EOF are counted."""
+
+    def __init__(self, stream: "FakeStream") -> None:
+        self._s = stream
+        self._r = stream.reader
+        self.reads = 0
+        self.reads_after_eof = 0
+
+    def _before(self, need: int) -> None:
+        self.reads += 1
+        if self._r.at_eof():
+            self.reads_after_eof += 1
+            if self.reads_after_eof > 50:
+                raise ReadAfterEOF(f"{self.reads_after_eof} reads after EOF")
+        if len(self._r._buffer) < need and not self._s._pending and not self._s._scheduled and not self._r._eof:
+            self._r.feed_eof()
+
+    async def readexactly(self, n):
+        self._before(n)
+        return await self._r.readexactly(n)
+
+    async def read(self, n=-1):
+        self._before(1)
+        return await self._r.read(n)
+
+    def at_eof(self):
+        return self._r.at_eof()
+
+    def __getattr__(self, name):
+        return getattr(self._r, name)
+
+
 class FakeStream:
     """reader/writer pair.  handler(data) -> chunks; each chunk is fed to the StreamReader in its own
     loop iteration; `eof_after` = True feeds EOF after the last chunk of a reply."""
